@@ -275,10 +275,11 @@ static void case_cpc(Rng& r) {
       s = u.get_result();
     }
   };
+  const uint8_t lgk0 = sk->get_lg_k();
   Result res = roundtrip(o, *sk, r, G().cur_desc);
   if (res.ok) {
     ++cpc_max_checked; count("cpc_estimated_max_checked");
-    if (res.image.size() > cpc_sketch::get_max_serialized_size_bytes(lg_k)) { ++cpc_max_exceeded; count("cpc_estimated_max_exceeded"); }
+    if (res.image.size() > cpc_sketch::get_max_serialized_size_bytes(lgk0)) { ++cpc_max_exceeded; count("cpc_estimated_max_exceeded"); }
   }
 }
 
